@@ -180,6 +180,7 @@ func TestWorker(t *testing.T) {
 		if err != nil {
 			t.Fatal(err)
 		}
+		emit(map[string]any{"replay": job.Replay, "started": true})
 		res := eng.run(t, sc, dump)
 		same := false
 		for _, v := range res.Violations {
@@ -211,6 +212,9 @@ func TestWorker(t *testing.T) {
 		if traceEvery > 0 {
 			b, _ := json.Marshal(sc)
 			fmt.Fprintf(os.Stderr, "trace: scenario %s\n", b)
+		}
+		if cb, err := json.Marshal(map[string]any{"engine": job.Engine, "prop": job.Prop, "seed": seed, "scenario": sc}); err == nil {
+			_ = os.WriteFile(job.Out+".cur", cb, 0o644) // if the process dies in this run, the driver knows which one it was
 		}
 		res := eng.run(t, sc, dump)
 		if i == 0 {
